@@ -264,3 +264,53 @@ theorem pump_kids (ks : List XTree) (queue : List NsMap) (frames : List (List (S
 end
 
 end Xs.Backends
+
+namespace Xs.Backends
+open Py Xs.Bind
+
+/-! ### ElementTree sources -/
+
+mutual
+theorem iterwalk_eq_toks (wk : List (Str × Str)) (t : XTree) (m : NsMap) :
+    (iterwalk wk t m).1 = toks (redecl wk t m).1 ∧ (iterwalk wk t m).2 = (redecl wk t m).2 := by
+  match t with
+  | .node d q a st tx kids tl =>
+    cases hu : targetUri q with
+    | none =>
+      have ih := iterwalkKids_eq_toks wk kids m
+      simp only [iterwalk, redecl, hu, toks, List.map_nil, List.nil_append]
+      exact ⟨by rw [ih.1], ih.2⟩
+    | some uri =>
+      have ih := iterwalkKids_eq_toks wk kids (loadPrefix wk uri m).2
+      simp only [iterwalk, redecl, hu, toks, List.map_cons, List.map_nil, List.cons_append, List.nil_append]
+      exact ⟨by rw [ih.1], ih.2⟩
+theorem iterwalkKids_eq_toks (wk : List (Str × Str)) (ks : List XTree) (m : NsMap) :
+    (iterwalkKids wk ks m).1 = toksKids (redeclKids wk ks m).1 ∧ (iterwalkKids wk ks m).2 = (redeclKids wk ks m).2 := by
+  match ks with
+  | [] => simp [iterwalkKids, redeclKids, toksKids]
+  | k :: ks' =>
+    have h1 := iterwalk_eq_toks wk k m
+    have h2 := iterwalkKids_eq_toks wk ks' (iterwalk wk k m).2
+    simp only [iterwalkKids, redeclKids, toksKids]
+    rw [h1.2] at h2
+    rw [h1.1, h1.2]
+    exact ⟨by rw [h2.1], h2.2⟩
+end
+
+mutual
+theorem allPassed_redecl (wk : List (Str × Str)) (t : XTree) (m : NsMap) :
+    (redecl wk t m).1.allPassed = t.allPassed := by
+  match t with
+  | .node d q a st tx kids tl =>
+    have ih := fun m' => allPassedKids_redecl wk kids m'
+    cases hu : targetUri q <;> simp [redecl, hu, XTree.allPassed, ih]
+theorem allPassedKids_redecl (wk : List (Str × Str)) (ks : List XTree) (m : NsMap) :
+    XTree.allPassedKids (redeclKids wk ks m).1 = XTree.allPassedKids ks := by
+  match ks with
+  | [] => simp [redeclKids]
+  | k :: ks' =>
+    simp only [redeclKids, XTree.allPassedKids]
+    rw [allPassed_redecl wk k m, allPassedKids_redecl wk ks' _]
+end
+
+end Xs.Backends
